@@ -8,7 +8,7 @@ ID = "C15"
 #: functions the hand-written model transcribes: their control skeleton (extract/shape.py) is regenerated into
 #: Gen/C15.lean and compared with the literal in Properties/C15.lean (`modelled_functions_have_the_transcribed_shape`)
 SHAPES = [
-    ("shapeTransferFit", "mlinsights/mlmodel/transfer_transformer.py", "TransferTransformer.fit"),
+    ("shapeTransferFit", "mlinsights/mlmodel/transfer_transformer.py", "TransferTransformer.fit", "full"),
     ("shapeTransferInit", "mlinsights/mlmodel/transfer_transformer.py", "TransferTransformer.__init__"),
 ]
 LEAN_TARGETS = ["MlVerif.Gen.C15", "MlVerif.Model.Wrappers", "MlVerif.Lemmas.Wrappers", "MlVerif.Properties.C15"]
@@ -856,6 +856,16 @@ def _check_real_wrappers(vs, stats):
             want = getattr(model().fit(data, yc), method)(data)
             return got, want
         cases.append(("SkBaseTransformLearner.transform:not-method-output", name, run))
+    # a callable that is a bound method of ANOTHER fitted instance of the wrapped model's class: the chosen method is that
+    # callable, whatever model the wrapper trains
+    ref = LinearRegression().fit(X, 3.0 * yc + 1.0)
+
+    def bound_other():
+        le = SkBaseTransformLearner(LinearRegression(), method=ref.predict)
+        le.fit(X, yc)
+        return le.transform(X), ref.predict(X)
+    cases.append(("SkBaseTransformLearner.transform:not-method-output", "learner[method=bound method of another instance]",
+                  bound_other))
     learner_case("learner[OneHotEncoder sparse output]", OneHotEncoder, "transform", X)
     learner_case("learner[MaxAbsScaler on sparse rows]", MaxAbsScaler, "transform", scipy.sparse.csr_matrix(X))
     learner_case("learner[StandardScaler]", StandardScaler, "transform", X)
